@@ -16,6 +16,23 @@ import (
 
 // leafUpdates renders one scalar update per leaf below prefix (relative paths).
 func leafUpdates(o *lib.Obs, prefix []lib.PathElem, skip64 bool) []*gpb.Update {
+	return leafUpdatesK(o, prefix, skip64, false)
+}
+
+// has64Key: some list key on the path is a 64-bit number or a decimal.
+func has64Key(elems []lib.PathElem) bool {
+	for _, e := range elems {
+		for _, kv := range e.Keys {
+			if strings.HasPrefix(kv, "int64:") || strings.HasPrefix(kv, "uint64:") || strings.HasPrefix(kv, "float64:") {
+				return true
+			}
+		}
+	}
+	return false
+}
+
+// leafUpdatesK: scopeKey also emits the key leaf of the scope entry itself.
+func leafUpdatesK(o *lib.Obs, prefix []lib.PathElem, skip64, scopeKey bool) []*gpb.Update {
 	var out []*gpb.Update
 	pre := lib.PathString(prefix)
 	for _, p := range o.SortedLeafPaths() {
@@ -27,7 +44,7 @@ func leafUpdates(o *lib.Obs, prefix []lib.PathElem, skip64 bool) []*gpb.Update {
 		if err != nil {
 			continue
 		}
-		if skip64 && (strings.HasPrefix(l.Val, "int64:") || strings.HasPrefix(l.Val, "uint64:") || strings.Contains(l.Val, `"int64:`) || strings.Contains(l.Val, `"uint64:`) || strings.Contains(l.Val, "float64:")) {
+		if skip64 && (has64Key(l.Elems) || strings.HasPrefix(l.Val, "int64:") || strings.HasPrefix(l.Val, "uint64:") || strings.Contains(l.Val, `"int64:`) || strings.Contains(l.Val, `"uint64:`) || strings.Contains(l.Val, "float64:")) {
 			continue
 		}
 		out = append(out, &gpb.Update{Path: lib.ToGNMIPath(l.Elems[len(prefix):]), Val: tv})
@@ -41,10 +58,14 @@ func leafUpdates(o *lib.Obs, prefix []lib.PathElem, skip64 bool) []*gpb.Update {
 	}
 	for _, p := range o.SortedLeafPaths() {
 		l := o.Leaves[p]
-		if !lib.HasPrefixPath(p, pre) || strings.Contains(p, "[#") {
+		if !lib.HasPrefixPath(p, pre) || strings.Contains(p, "[#") || (skip64 && has64Key(l.Elems)) {
 			continue
 		}
-		for i := len(prefix); i < len(l.Elems); i++ {
+		first := len(prefix)
+		if scopeKey && first > 0 {
+			first--
+		}
+		for i := first; i < len(l.Elems); i++ {
 			for kn, kv := range l.Elems[i].Keys {
 				kp := append(append([]lib.PathElem(nil), l.Elems[:i+1]...), lib.PathElem{Name: kn, Pos: -1})
 				if _, isLeaf := o.Leaves[lib.PathString(kp)]; isLeaf {
@@ -75,6 +96,16 @@ func jsonUpdate(o *lib.Obs, prefix, elems []lib.PathElem) (*gpb.Update, error) {
 	}
 	if len(obj) == 0 {
 		return nil, fmt.Errorf("empty subtree")
+	}
+	// a payload for a list entry carries the entry's own key leaves, as a client would send it
+	if n := len(elems); n > 0 {
+		for kn, kv := range elems[n-1].Keys {
+			if _, ok := obj[kn]; !ok {
+				if jv, err := lib.ScalarJSON(kv); err == nil {
+					obj[kn] = jv
+				}
+			}
+		}
 	}
 	tv, err := lib.JSONIETF(obj)
 	if err != nil {
